@@ -162,7 +162,51 @@ fn corrupt(rng: &mut Rng, inp: &mut Input) -> bool {
 /// order the items are picked up in, the report must be the one of the remaining programs.
 fn gcc_rejections(rep: &mut Report, rng: &mut Rng) {
     use std::process::Command;
-    let n = rep.budget(5, 12);
+    // gcov's own chatter is larger than a pipe buffer (one "File ... Lines executed" block per
+    // source file of the unit): the worker that waits for it must still come back
+    {
+        let root = rep.workdir.join("gccbig");
+        let _ = std::fs::remove_dir_all(&root);
+        std::fs::create_dir_all(&root).unwrap();
+        let nh = 2200;
+        let mut main = String::new();
+        for i in 0..nh {
+            std::fs::write(root.join(format!("h{}.h", i)), format!("static inline int hf{}(int x)\n{{\n  return x + {};\n}}\n", i, i)).unwrap();
+            main.push_str(&format!("#include \"h{}.h\"\n", i));
+        }
+        main.push_str("int main(void)\n{\n  int r = 0;\n");
+        for i in 0..nh {
+            main.push_str(&format!("  r += hf{}(r);\n", i));
+        }
+        main.push_str("  return r == 1;\n}\n");
+        std::fs::write(root.join("big.c"), main).unwrap();
+        let ok = Command::new("gcc").current_dir(&root).args(["--coverage", "-O0", "-o", "big", "big.c"]).status().map(|s| s.success()).unwrap_or(false);
+        if ok {
+            let _ = Command::new("./big").current_dir(&root).status();
+            let _ = std::fs::remove_file(root.join("big"));
+            for threads in [1usize, 2] {
+                let out = run_grcov(&RunCfg { dir: &root, args: vec![".".into()], threads, perturb: None, fault: None,
+                    limit: Duration::from_secs(90), extra: vec!["-t".into(), "lcov".into(), "--no-demangle".into()] });
+                rep.case(&format!("gccbig {}", threads), true);
+                rep.count("gcc.large_gcov_output");
+                let case = json!({"op": "gcc-large-gcov-output", "headers": nh, "threads": threads});
+                match out.exit {
+                    None => rep.fail("oracle", None, "grcov did not terminate within 90 s on a unit for which gcov prints more than 64 KiB".into(), case),
+                    Some(0) => {
+                        let files = out.stdout.lines().filter(|l| l.starts_with("SF:")).count();
+                        if files != nh + 1 {
+                            rep.fail("oracle", None, format!("{} source files reported instead of {}", files, nh + 1), case);
+                        }
+                    }
+                    Some(c) => rep.fail("oracle", None, format!("grcov exited with {} on well-formed gcc data", c), case),
+                }
+            }
+        } else {
+            rep.notes.push("gcc failed on the many-headers unit".into());
+        }
+        let _ = std::fs::remove_dir_all(&root);
+    }
+    let n = rep.budget(8, 8);
     for c in 0..n {
         let root = rep.workdir.join(format!("gccrej{}", c));
         let _ = std::fs::remove_dir_all(&root);
